@@ -11,6 +11,7 @@ namespace Unifex.Driver
 def table : List ModelEntries :=
   [ Entries.stopsource
   , Entries.scopev2
+  , Entries.scopev1
   ]
 
 def lookup (m c : String) : Option Entry :=
